@@ -231,7 +231,7 @@ fn shutdown_points(c: &mut Case, scale: Scale) {
         let end = w.run(300_000, |w, a| {
             let poll_it = match a {
                 conn::Action::Shutdown => {
-                    reads_at_shutdown = Some(w.pipe.lock().unwrap().read_calls);
+                    reads_at_shutdown = Some(w.pipe.lock().unwrap_or_else(std::sync::PoisonError::into_inner).read_calls);
                     // a request is in flight while its handler runs or Request::close is still draining / writing
                     let (unfinished, started) = {
                         let l = w.log.lock().unwrap();
@@ -270,7 +270,7 @@ fn shutdown_points(c: &mut Case, scale: Scale) {
             End::Finished => {}
         }
         let invs = w.log.lock().unwrap().invocations.clone();
-        let out = w.pipe.lock().unwrap().outbox.clone();
+        let out = w.pipe.lock().unwrap_or_else(std::sync::PoisonError::into_inner).outbox.clone();
         let Some(sd_step) = w.shutdown_done_at else {
             // the connection finished before the shutdown step: plain C07 situation
             c.l.count("connection_finished_before_shutdown_step");
@@ -298,7 +298,7 @@ fn shutdown_points(c: &mut Case, scale: Scale) {
         }
         // an idle / mid-preamble connection stops without reading further
         if !running_at_shutdown {
-            let after = w.pipe.lock().unwrap().read_calls;
+            let after = w.pipe.lock().unwrap_or_else(std::sync::PoisonError::into_inner).read_calls;
             if let Some(before) = reads_at_shutdown {
                 if after > before {
                     report(c, &case, &w, "read-after-shutdown", format!("[{what}] no handler was running, yet {} further transport read(s) were issued after the shutdown request", after - before));
